@@ -148,6 +148,16 @@ def mutants(argv):
                 row["checks"][pid] = {"exit": cp.returncode, "violation_lines": len(viol), "wall_s": round(time.time() - t0, 1), "first": next((l for l in out.splitlines() if l.startswith("violation ")), "")[:300]}
                 if cp.returncode == 1 and viol:
                     caught = True
+                    # keep the minimised scenario that exposed this change in the corpus that every later run of the check replays
+                    # (sampling frequencies shift whenever a generator grows; the corpus does not)
+                    import re as _re
+
+                    m_ = _re.search(r"replay=(\S+\.json)", viol[0])
+                    dst_dir = os.path.join(VERIF, "corpus", pid)
+                    dst_file = os.path.join(dst_dir, name.replace("/", "_") + ".json")
+                    if m_ and os.path.exists(m_.group(1)) and os.path.dirname(m_.group(1)).endswith("replays") and not os.path.exists(dst_file):
+                        os.makedirs(dst_dir, exist_ok=True)
+                        shutil.copy(m_.group(1), dst_file)
             row["caught"] = caught
             results.append(row)
             if not caught:
